@@ -31,6 +31,8 @@ extern "C"
 
 namespace simint
 {
+extern bool g_atomic_points __attribute__((weak)); // defined in tsan_atomic_wrap.cpp (TSan flavour only)
+static bool g_atomic_points_dummy;
 bool g_active = false;
 thread_local int t_me = -1;
 uint64_t g_now = 0;
@@ -104,6 +106,7 @@ uint64_t drawn[sim::NSTREAMS];
 
 long rawfutex(std::atomic<int>* a, int op, int v)
 {
+  simint::TsanIgn _tsan_ign;
   long ret;
   register long r10 __asm__("r10") = 0;
   register long r8 __asm__("r8") = 0;
@@ -116,17 +119,20 @@ long rawfutex(std::atomic<int>* a, int op, int v)
 }
 void park(int i)
 {
+  simint::TsanIgn _tsan_ign;
   while (th[i].go.load(std::memory_order_acquire) == 0) rawfutex(&th[i].go, FUTEX_WAIT, 0);
   th[i].go.store(0, std::memory_order_relaxed);
 }
 void unpark(int i)
 {
+  simint::TsanIgn _tsan_ign;
   th[i].go.store(1, std::memory_order_release);
   rawfutex(&th[i].go, FUTEX_WAKE, 1);
 }
 
 const char* bkname(BlockKind k)
 {
+  simint::TsanIgn _tsan_ign;
   switch (k)
   {
   case B_MUTEX: return "mutex";
@@ -144,6 +150,7 @@ const char* bkname(BlockKind k)
 
 uint64_t next_event_time()
 {
+  simint::TsanIgn _tsan_ign;
   uint64_t best = UINT64_MAX;
   for (int i = 0; i < nth; i++)
     if (th[i].st == BLOCKED && th[i].until < best) best = th[i].until;
@@ -156,6 +163,7 @@ uint64_t next_event_time()
 }
 void expire_waiters()
 {
+  simint::TsanIgn _tsan_ign;
   for (int i = 0; i < nth; i++)
     if (th[i].st == BLOCKED && th[i].until <= g_now)
     {
@@ -166,6 +174,7 @@ void expire_waiters()
 }
 void fire_sources()
 {
+  simint::TsanIgn _tsan_ign;
   for (int k = 0; k < g_nsrc; k++) g_fire[k]();
 }
 
@@ -181,6 +190,7 @@ void fire_sources()
 // updated its own state (RUNNABLE / BLOCKED / DONE).
 void schedule(bool yielding = false)
 {
+  simint::TsanIgn _tsan_ign;
   int self = t_me;
   for (;;)
   {
@@ -289,6 +299,7 @@ void schedule(bool yielding = false)
 
 void thread_finish(int id)
 {
+  simint::TsanIgn _tsan_ign;
   th[id].st = DONE;
   for (int i = 0; i < nth; i++)
     if (th[i].st == BLOCKED && th[i].bk == B_JOIN && th[i].on == &th[id]) th[i].st = RUNNABLE;
@@ -297,6 +308,7 @@ void thread_finish(int id)
 }
 void key_dtor(void* v)
 {
+  simint::TsanIgn _tsan_ign;
   // glibc runs the destructors of all keys round by round (PTHREAD_DESTRUCTOR_ITERATIONS = 4). Other libraries'
   // per-thread cleanup (OpenSSL's thread-stop handler, ...) may sit on keys created after ours and take interposed
   // locks; it must still run while this thread holds the baton. So re-arm our key for the first three rounds and
@@ -305,7 +317,9 @@ void key_dtor(void* v)
   int id = (int)(raw & 0xfffff) - 1;
   int pass = (int)(raw >> 20);
   if (!g_active || id < 0) return;
-  if (pass < 3)
+  // (the sanitizer runtimes use the same trick and destroy their per-thread state - allocator caches - in the 4th and last
+  // round, so the simulated thread is finished in the 3rd: it may still allocate while it hands the baton over)
+  if (pass < 2)
   {
     pthread_setspecific(g_key, (void*)(intptr_t)(((intptr_t)(pass + 1) << 20) | (raw & 0xfffff)));
     return;
@@ -322,6 +336,7 @@ void* tramp(void* p)
 }
 int find_thread(pthread_t t)
 {
+  simint::TsanIgn _tsan_ign;
   for (int i = 1; i < nth; i++)
     if (th[i].st != FREE && !th[i].joined && pthread_equal(th[i].real, t)) return i;
   return -1;
@@ -330,6 +345,7 @@ int find_thread(pthread_t t)
 uint64_t wall_base_ns() { return sim::EPOCH_BASE_S * 1000000000ull + (uint64_t)g_wall_off_ms * 1000000ull; }
 uint64_t wall_now_ns()
 {
+  simint::TsanIgn _tsan_ign;
   uint64_t v = wall_base_ns() + g_now;
   if (cfg.wall_ms_aligned) v -= v % 1000000ull;
   return v;
@@ -338,6 +354,7 @@ uint64_t ts_ns(const timespec* ts) { return (uint64_t)ts->tv_sec * 1000000000ull
 // absolute time on clock k -> monotonic deadline
 uint64_t abs_to_mono(clockid_t k, const timespec* ts)
 {
+  simint::TsanIgn _tsan_ign;
   uint64_t v = ts_ns(ts);
   if (k == CLOCK_REALTIME || k == CLOCK_REALTIME_COARSE || k == CLOCK_TAI)
   {
@@ -351,16 +368,19 @@ uint64_t abs_to_mono(clockid_t k, const timespec* ts)
 // ------------------------------------------------------------------ internal API
 void mix(uint64_t v)
 {
+  simint::TsanIgn _tsan_ign;
   g_hash ^= v;
   g_hash *= 1099511628211ull;
 }
 void mix_ilv(uint64_t v)
 {
+  simint::TsanIgn _tsan_ign;
   g_ilv ^= v;
   g_ilv *= 1099511628211ull;
 }
 uint64_t raw_draw(int s, uint64_t n)
 {
+  simint::TsanIgn _tsan_ign;
   uint64_t idx = drawn[s]++;
   uint64_t r = rng[s].next();
   if (n <= 1) return 0;
@@ -376,6 +396,7 @@ uint64_t raw_draw(int s, uint64_t n)
 }
 void streams_reset()
 {
+  simint::TsanIgn _tsan_ign;
   for (int i = 0; i < sim::NSTREAMS; i++)
   {
     rng[i].seed(g_spec.seed * 0x9E3779B97F4A7C15ull + 0x1234567ull * (i + 1));
@@ -385,11 +406,13 @@ void streams_reset()
 }
 void add_time_source(NextFn n, FireFn f)
 {
+  simint::TsanIgn _tsan_ign;
   if (g_nsrc < 4) { g_next[g_nsrc] = n; g_fire[g_nsrc] = f; g_nsrc++; }
 }
 void count(const char* name, uint64_t inc) { g_counters[name] += inc; }
 uint64_t counter(const char* name)
 {
+  simint::TsanIgn _tsan_ign;
   auto it = g_counters.find(name);
   return it == g_counters.end() ? 0 : it->second;
 }
@@ -397,6 +420,7 @@ uint64_t counter(const char* name)
 static int g_trace = -1;
 void point(uint32_t tag)
 {
+  simint::TsanIgn _tsan_ign;
   if (!on()) return;
   if (g_trace < 0) g_trace = getenv("SIMRT_TRACE") ? atoi(getenv("SIMRT_TRACE")) : 0;
   if (g_trace && g_steps >= (uint64_t)g_trace && g_steps < (uint64_t)g_trace + 400) fprintf(stderr, "TRACE step=%llu t%d tag=%x now=%llu\n", (unsigned long long)g_steps, t_me, tag, (unsigned long long)(g_now - 1000000000000ull));
@@ -432,6 +456,7 @@ void point(uint32_t tag)
 }
 bool block(BlockKind k, const void* onp, uint64_t until, uint32_t tag, bool wall)
 {
+  simint::TsanIgn _tsan_ign;
   Thr& t = th[t_me];
   t.st = BLOCKED;
   t.bk = k;
@@ -450,6 +475,7 @@ bool block(BlockKind k, const void* onp, uint64_t until, uint32_t tag, bool wall
 }
 void wake_all(BlockKind k, const void* onp)
 {
+  simint::TsanIgn _tsan_ign;
   for (int i = 0; i < nth; i++)
     if (th[i].st == BLOCKED && th[i].bk == k && th[i].on == onp)
     {
@@ -459,6 +485,7 @@ void wake_all(BlockKind k, const void* onp)
 }
 void wake_fd_waiters()
 {
+  simint::TsanIgn _tsan_ign;
   for (int i = 0; i < nth; i++)
     if (th[i].st == BLOCKED && th[i].bk == B_FD)
     {
@@ -469,6 +496,7 @@ void wake_fd_waiters()
 
 std::string json_escape(const std::string& s)
 {
+  simint::TsanIgn _tsan_ign;
   std::string o;
   o.reserve(s.size() + 8);
   for (unsigned char c : s)
@@ -527,7 +555,11 @@ std::string json_escape(const std::string& s)
     if (n <= 0) break;
     off += (size_t)n;
   }
-  _exit(0);
+  // leave through the raw system call: sanitizer exit hooks (TSan's Finalize changes the exit code and can wait on runtime
+  // locks while every other thread is parked) must not run; reports have already been written when they were detected
+  register long rdi __asm__("rdi") = 0;
+  __asm__ volatile("syscall" : : "a"((long)SYS_exit_group), "r"(rdi) : "rcx", "r11", "memory");
+  __builtin_unreachable();
 }
 } // namespace simint
 
@@ -540,7 +572,9 @@ uint64_t draw(int stream, uint64_t n) { return raw_draw(stream, n); }
 bool active() { return g_active; }
 void begin(const Config& c)
 {
+  simint::TsanIgn _tsan_ign;
   cfg = c;
+  if (&g_atomic_points) g_atomic_points = c.atomic_points;
   if (!g_key_ok) { pthread_key_create(&g_key, key_dtor); g_key_ok = true; }
   nth = 1;
   th[0].st = RUNNABLE;
@@ -559,8 +593,10 @@ void begin(const Config& c)
 }
 void reconfigure(const Config& c)
 {
+  simint::TsanIgn _tsan_ign;
   int s = cfg.strategy;
   cfg = c;
+  if (&g_atomic_points) g_atomic_points = c.atomic_points;
   if (s == PCT && c.strategy != PCT) pct_points.clear();
 }
 void end() { g_active = false; }
@@ -568,6 +604,7 @@ uint64_t now() { return g_now; }
 uint64_t wall_ms() { return wall_now_ns() / 1000000ull; }
 void wall_jump_ms(int64_t d)
 {
+  simint::TsanIgn _tsan_ign;
   g_wall_off_ms += d;
   // waiters on the wall clock see their deadline move
   for (int i = 0; i < nth; i++)
@@ -581,12 +618,14 @@ void wall_jump_ms(int64_t d)
 }
 void advance_ns(uint64_t d)
 {
+  simint::TsanIgn _tsan_ign;
   g_now += d;
   expire_waiters();
   fire_sources();
 }
 void sleep_ns(uint64_t d)
 {
+  simint::TsanIgn _tsan_ign;
   if (!on()) return;
   point(0x601);
   block(B_SLEEP, nullptr, g_now + d, 0x602);
@@ -597,6 +636,7 @@ int self() { return t_me; }
 int thread_count() { return nth; }
 int live_threads()
 {
+  simint::TsanIgn _tsan_ign;
   int n = 0;
   for (int i = 0; i < nth; i++) if (th[i].st == RUNNABLE || th[i].st == BLOCKED) n++;
   return n;
@@ -604,6 +644,7 @@ int live_threads()
 void point(uint32_t tag) { simint::point(tag); }
 void logf(const char* fmt, ...)
 {
+  simint::TsanIgn _tsan_ign;
   char b[512];
   va_list ap;
   va_start(ap, fmt);
@@ -624,6 +665,7 @@ void logf(const char* fmt, ...)
 }
 void notef(const char* fmt, ...)
 {
+  simint::TsanIgn _tsan_ign;
   if (!g_spec.verbose) return;
   char b[1024];
   va_list ap;
@@ -636,11 +678,13 @@ void notef(const char* fmt, ...)
 void count(const char* name, uint64_t inc) { simint::count(name, inc); }
 void state_mix(uint64_t v)
 {
+  simint::TsanIgn _tsan_ign;
   g_state ^= v;
   g_state *= 1099511628211ull;
 }
 void fail(const char* oracle, const char* fmt, ...)
 {
+  simint::TsanIgn _tsan_ign;
   char b[2048];
   va_list ap;
   va_start(ap, fmt);
@@ -656,11 +700,13 @@ const char* mode() { return g_spec.mode.c_str(); }
 void set_deadlock_describer(std::function<std::string()> f) { g_dl_describer = std::move(f); }
 void name_thread(const char* n)
 {
+  simint::TsanIgn _tsan_ign;
   if (t_me >= 0) snprintf(th[t_me].name, sizeof th[t_me].name, "%s", n);
 }
 void name_object(const void* o, const char* n) { g_objnames[o] = n; }
 std::string threads_report()
 {
+  simint::TsanIgn _tsan_ign;
   std::string m;
   for (int i = 0; i < nth; i++)
   {
@@ -683,6 +729,7 @@ extern "C"
 // ---------------------------------------------------------------- threads
 int pthread_create(pthread_t* t, const pthread_attr_t* a, void* (*fn)(void*), void* arg)
 {
+  simint::TsanIgn _tsan_ign;
   SIM_REAL(int, pthread_create, pthread_t*, const pthread_attr_t*, void* (*)(void*), void*);
   if (!on()) return real(t, a, fn, arg);
   int id = nth;
@@ -723,6 +770,7 @@ int pthread_create(pthread_t* t, const pthread_attr_t* a, void* (*fn)(void*), vo
 }
 int pthread_join(pthread_t t, void** r)
 {
+  simint::TsanIgn _tsan_ign;
   SIM_REAL(int, pthread_join, pthread_t, void**);
   int id = on() ? find_thread(t) : -1;
   if (id < 0) return real(t, r);
@@ -733,6 +781,7 @@ int pthread_join(pthread_t t, void** r)
 }
 int pthread_detach(pthread_t t)
 {
+  simint::TsanIgn _tsan_ign;
   SIM_REAL(int, pthread_detach, pthread_t);
   int id = on() ? find_thread(t) : -1;
   if (id < 0) return real(t);
@@ -742,6 +791,7 @@ int pthread_detach(pthread_t t)
 }
 int sched_yield()
 {
+  simint::TsanIgn _tsan_ign;
   if (!on()) return 0;
   Thr& me = th[t_me];
   if (cfg.strategy == sim::PCT) me.prio = --pct_low;
@@ -760,6 +810,7 @@ struct MOver { int lock; unsigned count; int owner; unsigned nusers; int kind; }
 static inline int mkind(const MOver* o) { return o->kind & 3; } // 0 normal(timed), 1 recursive, 2 errorcheck, 3 adaptive
 static void m_acquire(pthread_mutex_t* m)
 {
+  simint::TsanIgn _tsan_ign;
   MOver* o = (MOver*)m;
   o->lock = 1;
   o->owner = t_me + 1;
@@ -768,6 +819,7 @@ static void m_acquire(pthread_mutex_t* m)
 }
 static void m_release(pthread_mutex_t* m)
 {
+  simint::TsanIgn _tsan_ign;
   MOver* o = (MOver*)m;
   if (o->count > 1 && mkind(o) == PTHREAD_MUTEX_RECURSIVE) { o->count--; return; }
   TSAN_REL(m);
@@ -778,6 +830,7 @@ static void m_release(pthread_mutex_t* m)
 }
 static int m_lock(pthread_mutex_t* m, uint64_t until)
 {
+  simint::TsanIgn _tsan_ign;
   MOver* o = (MOver*)m;
   point(0x300);
   while (o->lock)
@@ -794,12 +847,14 @@ static int m_lock(pthread_mutex_t* m, uint64_t until)
 }
 int pthread_mutex_lock(pthread_mutex_t* m)
 {
+  simint::TsanIgn _tsan_ign;
   SIM_REAL(int, pthread_mutex_lock, pthread_mutex_t*);
   if (!on()) return real(m);
   return m_lock(m, UINT64_MAX);
 }
 int pthread_mutex_trylock(pthread_mutex_t* m)
 {
+  simint::TsanIgn _tsan_ign;
   SIM_REAL(int, pthread_mutex_trylock, pthread_mutex_t*);
   if (!on()) return real(m);
   point(0x302);
@@ -814,18 +869,21 @@ int pthread_mutex_trylock(pthread_mutex_t* m)
 }
 int pthread_mutex_timedlock(pthread_mutex_t* m, const timespec* ts)
 {
+  simint::TsanIgn _tsan_ign;
   SIM_REAL(int, pthread_mutex_timedlock, pthread_mutex_t*, const timespec*);
   if (!on()) return real(m, ts);
   return m_lock(m, abs_to_mono(CLOCK_REALTIME, ts));
 }
 int pthread_mutex_clocklock(pthread_mutex_t* m, clockid_t k, const timespec* ts)
 {
+  simint::TsanIgn _tsan_ign;
   SIM_REAL(int, pthread_mutex_clocklock, pthread_mutex_t*, clockid_t, const timespec*);
   if (!on()) return real(m, k, ts);
   return m_lock(m, abs_to_mono(k, ts));
 }
 int pthread_mutex_unlock(pthread_mutex_t* m)
 {
+  simint::TsanIgn _tsan_ign;
   SIM_REAL(int, pthread_mutex_unlock, pthread_mutex_t*);
   if (!on()) return real(m);
   MOver* o = (MOver*)m;
@@ -836,6 +894,7 @@ int pthread_mutex_unlock(pthread_mutex_t* m)
 }
 int pthread_mutex_destroy(pthread_mutex_t* m)
 {
+  simint::TsanIgn _tsan_ign;
   SIM_REAL(int, pthread_mutex_destroy, pthread_mutex_t*);
   if (!on()) return real(m);
   return 0;
@@ -844,11 +903,13 @@ int pthread_mutex_destroy(pthread_mutex_t* m)
 // ---------------------------------------------------------------- condition variables (side table)
 static std::map<const void*, std::vector<int>>& cond_tab()
 {
+  simint::TsanIgn _tsan_ign;
   static std::map<const void*, std::vector<int>> t;
   return t;
 }
 static int c_wait(pthread_cond_t* c, pthread_mutex_t* m, uint64_t until, bool wall)
 {
+  simint::TsanIgn _tsan_ign;
   point(0x400); // scheduling point BEFORE registering as a waiter: the lost wake-up window
   auto& tab = cond_tab();
   tab[c].push_back(t_me);
@@ -886,6 +947,7 @@ static int c_wait(pthread_cond_t* c, pthread_mutex_t* m, uint64_t until, bool wa
 }
 static void c_wake(pthread_cond_t* c, bool all)
 {
+  simint::TsanIgn _tsan_ign;
   auto& tab = cond_tab();
   auto it = tab.find(c);
   if (it == tab.end()) return;
@@ -908,24 +970,28 @@ static void c_wake(pthread_cond_t* c, bool all)
 }
 int pthread_cond_wait(pthread_cond_t* c, pthread_mutex_t* m)
 {
+  simint::TsanIgn _tsan_ign;
   SIM_REAL(int, pthread_cond_wait, pthread_cond_t*, pthread_mutex_t*);
   if (!on()) return real(c, m);
   return c_wait(c, m, UINT64_MAX, false);
 }
 int pthread_cond_timedwait(pthread_cond_t* c, pthread_mutex_t* m, const timespec* ts)
 {
+  simint::TsanIgn _tsan_ign;
   SIM_REAL(int, pthread_cond_timedwait, pthread_cond_t*, pthread_mutex_t*, const timespec*);
   if (!on()) return real(c, m, ts);
   return c_wait(c, m, abs_to_mono(CLOCK_REALTIME, ts), true);
 }
 int pthread_cond_clockwait(pthread_cond_t* c, pthread_mutex_t* m, clockid_t k, const timespec* ts)
 {
+  simint::TsanIgn _tsan_ign;
   SIM_REAL(int, pthread_cond_clockwait, pthread_cond_t*, pthread_mutex_t*, clockid_t, const timespec*);
   if (!on()) return real(c, m, k, ts);
   return c_wait(c, m, abs_to_mono(k, ts), k == CLOCK_REALTIME);
 }
 int pthread_cond_signal(pthread_cond_t* c)
 {
+  simint::TsanIgn _tsan_ign;
   SIM_REAL(int, pthread_cond_signal, pthread_cond_t*);
   if (!on()) return real(c);
   point(0x410);
@@ -934,6 +1000,7 @@ int pthread_cond_signal(pthread_cond_t* c)
 }
 int pthread_cond_broadcast(pthread_cond_t* c)
 {
+  simint::TsanIgn _tsan_ign;
   SIM_REAL(int, pthread_cond_broadcast, pthread_cond_t*);
   if (!on()) return real(c);
   point(0x411);
@@ -942,6 +1009,7 @@ int pthread_cond_broadcast(pthread_cond_t* c)
 }
 int pthread_cond_destroy(pthread_cond_t* c)
 {
+  simint::TsanIgn _tsan_ign;
   SIM_REAL(int, pthread_cond_destroy, pthread_cond_t*);
   if (!on()) return real(c);
   cond_tab().erase(c);
@@ -958,6 +1026,7 @@ static QuietRange g_quiet[8];
 static int g_nquiet = -1;
 static int quiet_cb(struct dl_phdr_info* info, size_t, void*)
 {
+  simint::TsanIgn _tsan_ign;
   const char* n = info->dlpi_name ? info->dlpi_name : "";
   if (!strstr(n, "libcrypto") && !strstr(n, "libssl")) return 0;
   for (int i = 0; i < info->dlpi_phnum && g_nquiet < 8; i++)
@@ -971,6 +1040,7 @@ static int quiet_cb(struct dl_phdr_info* info, size_t, void*)
 }
 static inline bool quiet_caller(void* ra)
 {
+  simint::TsanIgn _tsan_ign;
   if (g_nquiet < 0) { g_nquiet = 0; dl_iterate_phdr(quiet_cb, nullptr); }
   uintptr_t a = (uintptr_t)ra;
   for (int i = 0; i < g_nquiet; i++) if (a >= g_quiet[i].lo && a < g_quiet[i].hi) return true;
@@ -982,11 +1052,13 @@ static inline bool quiet_caller(void* ra)
 struct RW { int writer = -1; int readers = 0; };
 static std::map<const void*, RW>& rw_tab()
 {
+  simint::TsanIgn _tsan_ign;
   static std::map<const void*, RW> t;
   return t;
 }
 static int rw_lock(pthread_rwlock_t* l, bool wr, uint64_t until, bool tryonly, void* ra)
 {
+  simint::TsanIgn _tsan_ign;
   QPOINT(wr ? 0x501 : 0x500, ra);
   auto& tab = rw_tab();
   for (;;)
@@ -1006,54 +1078,63 @@ static int rw_lock(pthread_rwlock_t* l, bool wr, uint64_t until, bool tryonly, v
 }
 int pthread_rwlock_rdlock(pthread_rwlock_t* l)
 {
+  simint::TsanIgn _tsan_ign;
   SIM_REAL(int, pthread_rwlock_rdlock, pthread_rwlock_t*);
   if (!on()) return real(l);
   return rw_lock(l, false, UINT64_MAX, false, __builtin_return_address(0));
 }
 int pthread_rwlock_wrlock(pthread_rwlock_t* l)
 {
+  simint::TsanIgn _tsan_ign;
   SIM_REAL(int, pthread_rwlock_wrlock, pthread_rwlock_t*);
   if (!on()) return real(l);
   return rw_lock(l, true, UINT64_MAX, false, __builtin_return_address(0));
 }
 int pthread_rwlock_tryrdlock(pthread_rwlock_t* l)
 {
+  simint::TsanIgn _tsan_ign;
   SIM_REAL(int, pthread_rwlock_tryrdlock, pthread_rwlock_t*);
   if (!on()) return real(l);
   return rw_lock(l, false, 0, true, __builtin_return_address(0));
 }
 int pthread_rwlock_trywrlock(pthread_rwlock_t* l)
 {
+  simint::TsanIgn _tsan_ign;
   SIM_REAL(int, pthread_rwlock_trywrlock, pthread_rwlock_t*);
   if (!on()) return real(l);
   return rw_lock(l, true, 0, true, __builtin_return_address(0));
 }
 int pthread_rwlock_timedrdlock(pthread_rwlock_t* l, const timespec* ts)
 {
+  simint::TsanIgn _tsan_ign;
   SIM_REAL(int, pthread_rwlock_timedrdlock, pthread_rwlock_t*, const timespec*);
   if (!on()) return real(l, ts);
   return rw_lock(l, false, abs_to_mono(CLOCK_REALTIME, ts), false, __builtin_return_address(0));
 }
 int pthread_rwlock_timedwrlock(pthread_rwlock_t* l, const timespec* ts)
 {
+  simint::TsanIgn _tsan_ign;
   SIM_REAL(int, pthread_rwlock_timedwrlock, pthread_rwlock_t*, const timespec*);
   if (!on()) return real(l, ts);
   return rw_lock(l, true, abs_to_mono(CLOCK_REALTIME, ts), false, __builtin_return_address(0));
 }
 int pthread_rwlock_clockrdlock(pthread_rwlock_t* l, clockid_t k, const timespec* ts)
 {
+  simint::TsanIgn _tsan_ign;
   SIM_REAL(int, pthread_rwlock_clockrdlock, pthread_rwlock_t*, clockid_t, const timespec*);
   if (!on()) return real(l, k, ts);
   return rw_lock(l, false, abs_to_mono(k, ts), false, __builtin_return_address(0));
 }
 int pthread_rwlock_clockwrlock(pthread_rwlock_t* l, clockid_t k, const timespec* ts)
 {
+  simint::TsanIgn _tsan_ign;
   SIM_REAL(int, pthread_rwlock_clockwrlock, pthread_rwlock_t*, clockid_t, const timespec*);
   if (!on()) return real(l, k, ts);
   return rw_lock(l, true, abs_to_mono(k, ts), false, __builtin_return_address(0));
 }
 int pthread_rwlock_unlock(pthread_rwlock_t* l)
 {
+  simint::TsanIgn _tsan_ign;
   SIM_REAL(int, pthread_rwlock_unlock, pthread_rwlock_t*);
   if (!on()) return real(l);
   auto& tab = rw_tab();
@@ -1072,6 +1153,7 @@ int pthread_rwlock_unlock(pthread_rwlock_t* l)
 }
 int pthread_rwlock_destroy(pthread_rwlock_t* l)
 {
+  simint::TsanIgn _tsan_ign;
   SIM_REAL(int, pthread_rwlock_destroy, pthread_rwlock_t*);
   if (!on()) return real(l);
   rw_tab().erase(l);
@@ -1081,11 +1163,13 @@ int pthread_rwlock_destroy(pthread_rwlock_t* l)
 // ---------------------------------------------------------------- once
 static std::map<const void*, int>& once_tab()
 {
+  simint::TsanIgn _tsan_ign;
   static std::map<const void*, int> t;
   return t;
 }
 int pthread_once(pthread_once_t* ctl, void (*fn)(void))
 {
+  simint::TsanIgn _tsan_ign;
   SIM_REAL(int, pthread_once, pthread_once_t*, void (*)(void));
   if (!on()) return real(ctl, fn);
   QPOINT(0x520, __builtin_return_address(0));
@@ -1100,6 +1184,7 @@ int pthread_once(pthread_once_t* ctl, void (*fn)(void))
   tab[ctl] = t_me;
   try
   {
+    simint::TsanUnIgn _user;
     fn();
   }
   catch (...)
@@ -1118,6 +1203,7 @@ int pthread_once(pthread_once_t* ctl, void (*fn)(void))
 // ---------------------------------------------------------------- clock and sleeping
 int clock_gettime(clockid_t k, timespec* ts)
 {
+  simint::TsanIgn _tsan_ign;
   SIM_REAL(int, clock_gettime, clockid_t, timespec*);
   if (!on()) return real(k, ts);
   uint64_t v;
@@ -1134,6 +1220,7 @@ int clock_gettime(clockid_t k, timespec* ts)
 }
 int gettimeofday(struct timeval* tv, void* tz)
 {
+  simint::TsanIgn _tsan_ign;
   typedef int (*F)(struct timeval*, void*);
   static F real = simint::real_fn<F>("gettimeofday");
   if (!on()) return real(tv, tz);
@@ -1144,6 +1231,7 @@ int gettimeofday(struct timeval* tv, void* tz)
 }
 time_t time(time_t* t)
 {
+  simint::TsanIgn _tsan_ign;
   SIM_REAL(time_t, time, time_t*);
   if (!on()) return real(t);
   time_t v = (time_t)(wall_now_ns() / 1000000000ull);
@@ -1152,6 +1240,7 @@ time_t time(time_t* t)
 }
 int nanosleep(const timespec* a, timespec* b)
 {
+  simint::TsanIgn _tsan_ign;
   SIM_REAL(int, nanosleep, const timespec*, timespec*);
   if (!on()) return real(a, b);
   point(0x600);
@@ -1161,6 +1250,7 @@ int nanosleep(const timespec* a, timespec* b)
 }
 int clock_nanosleep(clockid_t k, int flags, const timespec* a, timespec* b)
 {
+  simint::TsanIgn _tsan_ign;
   SIM_REAL(int, clock_nanosleep, clockid_t, int, const timespec*, timespec*);
   if (!on()) return real(k, flags, a, b);
   point(0x602);
@@ -1171,6 +1261,7 @@ int clock_nanosleep(clockid_t k, int flags, const timespec* a, timespec* b)
 }
 int usleep(useconds_t us)
 {
+  simint::TsanIgn _tsan_ign;
   SIM_REAL(int, usleep, useconds_t);
   if (!on()) return real(us);
   point(0x604);
@@ -1179,6 +1270,7 @@ int usleep(useconds_t us)
 }
 unsigned sleep(unsigned s)
 {
+  simint::TsanIgn _tsan_ign;
   SIM_REAL(unsigned, sleep, unsigned);
   if (!on()) return real(s);
   point(0x606);
@@ -1190,6 +1282,7 @@ unsigned sleep(unsigned s)
 long sim_syscall_impl(long n, long a, long b, long c, long d, long e, long g) __asm__("syscall");
 __attribute__((no_sanitize_address)) long sim_syscall_impl(long n, long a, long b, long c, long d, long e, long g)
 {
+  simint::TsanIgn _tsan_ign;
   static auto real = (long (*)(long, ...))dlsym(RTLD_NEXT, "syscall");
   if (on() && n == SYS_futex)
   {
@@ -1238,6 +1331,7 @@ __attribute__((no_sanitize_address)) long sim_syscall_impl(long n, long a, long 
 
 ssize_t getrandom(void* buf, size_t n, unsigned flags)
 {
+  simint::TsanIgn _tsan_ign;
   SIM_REAL(ssize_t, getrandom, void*, size_t, unsigned);
   if (!on()) return real(buf, n, flags);
   unsigned char* p = (unsigned char*)buf;
@@ -1246,6 +1340,7 @@ ssize_t getrandom(void* buf, size_t n, unsigned flags)
 }
 int getentropy(void* buf, size_t n)
 {
+  simint::TsanIgn _tsan_ign;
   SIM_REAL(int, getentropy, void*, size_t);
   if (!on()) return real(buf, n);
   unsigned char* p = (unsigned char*)buf;
@@ -1254,6 +1349,7 @@ int getentropy(void* buf, size_t n)
 }
 pid_t getpid(void)
 {
+  simint::TsanIgn _tsan_ign;
   SIM_REAL(pid_t, getpid);
   if (!on()) return real();
   return 4242;
